@@ -96,7 +96,7 @@ def specs(ctx):
 
 
 def run(ctx):
-    drivercheck.design(ctx)
+    drivercheck.design(ctx, restart=True)
     sp = specs(ctx)
     with mp.get_context("fork").Pool(NCPU) as pool:
         res = pool.map(crash_points, sp, chunksize=2)
